@@ -2,6 +2,8 @@
 
 package commonmark
 
+import "html"
+
 // C07 — without raw HTML, output is well-formed, fixed-vocabulary, fully escaped HTML.
 
 func c07Elem(name []byte) (ok, void bool) {
@@ -55,7 +57,22 @@ func ampOK(out []byte, i int) bool {
 	for k < len(out) && (isASCIILetterRef(out[k]) || isDigitB(out[k])) {
 		k++
 	}
-	return k < len(out) && out[k] == ';'
+	if k >= len(out) || out[k] != ';' {
+		return false
+	}
+	return namedRefExact(out[i : k+1])
+}
+
+// namedRefExact: ref ("&name;") is a named character reference of HTML, semicolon
+// included - decoding it differs from decoding "&name" and appending ";". Unknown
+// names decode to themselves both ways, and names that merely start with one of the
+// legacy semicolon-less entities (&notit; &ltx; &ampx;) leave the semicolon behind
+// both ways; a browser would show those as something other than the source text, so
+// the '&' in front of them has to be escaped like any other text.
+func namedRefExact(ref []byte) bool {
+	whole := html.UnescapeString(string(ref))
+	part := html.UnescapeString(string(ref[:len(ref)-1])) + ";"
+	return whole != part
 }
 
 // c07Validate checks the strict grammar; returns the tag/attribute-name skeleton.
